@@ -119,6 +119,27 @@ CHECKS["C17"] = dict(
     note="partial: pool/stack fill patterns are oracles on the real code (sampled histories), not theorems; fence sizes 0 (rwdi), 8 (dbg) "
          "and 16 (fence16) are run; low-level fences are max_alignment/page-size whenever the option is non-zero.",
     technique="Lean 4 proof (byte-level model, induction over the scan) + exhaustive fence sweep correspondence")
+CHECKS["C20"] = dict(
+    text="Lean theorems over event-level models whose loops mirror the source loops (detail::construct and its rollback, the deleters' "
+         "destroy loops, joint_array::builder, member-wise construction of a joint object): for EVERY array length n and failing index "
+         "k < n, every element size/alignment and every member layout of a joint object, the elements constructed are exactly the "
+         "elements destroyed (each once, none twice), nothing past the failing element is touched, the single allocation is released "
+         "exactly once with the kind/count/size/alignment it was made with and the exception leaves the helper; on success each element "
+         "is constructed once and destroyed once by the deleter / reset(). Tied by an exhaustive run of the property's domain (n <= 16 x "
+         "every k x every helper and joint_array constructor form) on the real code, event log compared line by line.",
+    note="allocate_shared is std::allocate_shared over std_allocator: modelled as one node request (libstdc++ trusted). D19 (first-element "
+         "failure does not unwind the joint stack) is not a violation: the block is released whole.",
+    technique="Lean 4 proof (induction over loop models, permutation/nodup of construct/destroy ids) + exhaustive event-log correspondence")
+CHECKS["C11"] = dict(
+    text="Lean theorems over the joint stack model (bounds-checked bump over [obj+sizeof T, +additional_size), fence 0, translated guards): "
+         "for every history of member allocations and releases, every size >= 1 and every power-of-two alignment a served piece is aligned, "
+         "inside the object's block above everything handed out before and disjoint from every live piece (invariant, induction); a piece "
+         "that does not fit yields out_of_fixed_memory with the state unchanged, an exactly fitting one is served; bump never overruns; the "
+         "block boundaries never move, so reset() releases exactly sizeof(T)+additional_size in one call. Tied by layout correspondence on "
+         "the real joint_ptr/joint_array/clone_joint over an instrumented upstream (offsets, top, release parameters, overflow).",
+    note="partial: containers with joint_allocator are covered by the model's allocate/deallocate histories, not instantiated in the harness; "
+         "clone independence rests on upstream blocks being disjoint.",
+    technique="Lean 4 proof (invariant over histories, reuse of the bump-stack lemmas) + layout correspondence")
 NOT_YET = {}
 
 def main():
